@@ -20,6 +20,7 @@ func init() {
 }
 
 func c01(c *Ctx) {
+	c.pageLoopsComplete("complete", "ApplyLTXNoLock", "WriteSnapshotTo")
 	c.clientStatusFamily("stream/client", "Stream")
 	{
 		// the database filter travels as one comma-joined query value; client and server must agree
